@@ -6,6 +6,7 @@ import (
 	"pgregory.net/rapid"
 
 	"verif/internal/gen"
+	"verif/internal/harness"
 	sim "verif/internal/ref/ardopsim"
 )
 
@@ -216,7 +217,11 @@ func genMalformed(t *rapid.T) Case {
 	}
 	c.After = "eof"
 	if !c.TCP && c.Connect != "none" && rapid.IntRange(0, 5).Draw(t, "txfail") == 0 {
-		c.After = "txfail"
+		// The line dies in the TX direction while a Write is in progress. Nothing else is injected: a CRCFAULT
+		// that makes Write retransmit at the very moment the TNC shuts its channels is a real-time race
+		// inside the library (send on a channel being closed) that no schedule of ours can order.
+		c.After, c.Blob, c.Shape = "txfail", nil, "txfail-only"
+		harness.Excluded("malformed bytes combined with a TX-side link failure during Write")
 	}
 	c.PendingRead = c.Connect != "none" && rapid.Bool().Draw(t, "pending_read")
 	return c
